@@ -23,8 +23,15 @@ pub struct Case {
 pub fn lib_tables(ctx: &mut Ctx, c: &Case, input: &dyn Fn() -> Value) -> Option<Vec<Table>> {
     let rels = to_freewords(&c.pres.rels);
     let (n, k) = (c.pres.ngens, c.k);
-    let r = observe(|| coset_tables(n, &rels, k).map(|t| (t.len(), from_coset_table(&t))).collect::<Vec<_>>());
+    // a nearly free group has millions of subgroup classes of small index: such a case is not judged (a straggler
+    // of that kind kept one worker busy for more than an hour and 6 GB in a thorough run)
+    const MAX_TABLES: usize = 150_000;
+    let r = observe(|| coset_tables(n, &rels, k).take(MAX_TABLES + 1).map(|t| (t.len(), from_coset_table(&t))).collect::<Vec<_>>());
     let raw = ctx.no_panic("cosets::coset_tables", input, r)?;
+    if raw.len() > MAX_TABLES {
+        ctx.out_of_domain("more-than-150000-subgroup-classes-below-the-index-bound");
+        return None;
+    }
     let mut out = vec![];
     for (pos, (len, t)) in raw.into_iter().enumerate() {
         match t {
@@ -72,7 +79,7 @@ pub fn judge(ctx: &mut Ctx, c: &Case) {
     // count per index: ground truth by brute-force homomorphisms where affordable, else own low-index
     let mut expected: Vec<Option<usize>> = vec![None; c.k + 1];
     let mut truth_source = "low_index oracle";
-    let li = groups::low_index_profile(&c.pres, c.k, 3_000_000);
+    let li = groups::low_index_profile(&c.pres, c.k, 1_000_000);
     for n in 1..=c.k {
         if let Some(x) = groups::classes_of_index_bf(&c.pres, n, c.bf_limit) {
             expected[n] = Some(x);
